@@ -11,8 +11,9 @@ import ir
 from ir import walk, unwrap, show
 from effects import PRIMS, prim_name, classify_coef, aliases_of, uses_of, locate
 from framework import Check
+from accesses import Analyzer
 
-QUICK_UNITS = ['rt_builtin', 'vt_block', 'be_block_crs', 'be_eigen', 'ip_unit']
+QUICK_UNITS = ['rt_builtin', 'vt_block', 'be_block_crs', 'be_eigen', 'ip_unit', 'mixed']
 THOROUGH_UNITS = QUICK_UNITS + ['vt_float', 'vt_complex']
 
 
@@ -215,6 +216,72 @@ def conj_rule(ck, units):
                   f.where(), not dets, ('in %s: ' % f.full[:100] if dets else '') + '; '.join(dets), trivial=(nconj == 0))
 
 
+def rule_extent(ck, units):
+    """element-wise loops over the output vector of a primitive run over the whole vector: the bound of a loop whose body writes out[i]
+    (i the induction variable itself) is the number of rows of the matrix argument (rows(A) / A.nrows / A.rows()) or the size of a
+    vector argument - not a block count or any other quantity"""
+    ck.rule('full-extent', 'in the backend primitives every loop that writes the output vector element by element (out[i], i the induction variable) is bounded by the row count of the matrix '
+                           'argument or the size of a vector argument: the whole output is scaled / overwritten, whatever the block structure', 10)
+    done = set()
+    for u in units.values():
+        an = Analyzer([u])
+        for f in u.funcs:
+            if not (f.cls and f.cls.startswith('amgcl::backend::') and f.cls.endswith('_impl') and f.q.endswith('::apply')) or f.cfg is None:
+                continue
+            p = f.cls[len('amgcl::backend::'):-len('_impl')]
+            if p not in PRIMS or (f.file, f.line) in done:
+                continue
+            oi = PRIMS[p][1]
+            if oi >= len(f.params):
+                continue
+            out_root = ('param', oi)
+            k = 0
+            for L in [n for n in f.nodes.values() if n['k'] == 'for' and n.get('c') is not None]:
+                ivs = set()
+                for x in walk(L.get('init') or {'k': 'x', 'i': -1}):
+                    if x['k'] == 'decl':
+                        ivs |= {v['d'] for v in x['v']}
+                writes = []
+                for n in walk(L['b']):
+                    if n['k'] == 'bin' and n['op'] in ('=', '+=', '-=', '*=', '/='):
+                        lhs = unwrap(n['x'])
+                        if lhs is not None and lhs['k'] == 'idx' and unwrap(lhs['x'])['k'] == 'ref' and unwrap(lhs['x'])['d'] in ivs and an.root_of_expr(f, lhs['b']) == out_root \
+                                and unwrap(lhs['b'])['k'] == 'ref':
+                            writes.append(n)
+                if not writes:
+                    continue
+                c = unwrap(L['c'])
+                if c['k'] != 'bin' or c['op'] not in ('<', '!=', '<='):
+                    continue
+                bound = c['y']
+
+                def origin(e, depth=0):
+                    e = unwrap(e)
+                    if e is None or depth > 4:
+                        return None
+                    if e['k'] == 'call':
+                        nm = e.get('m') or (e.get('f') or '').split('::')[-1]
+                        if nm in ('rows', 'size') and (e.get('obj') is not None or e.get('a')):
+                            r = an.root_of_expr(f, e.get('obj') if e.get('obj') is not None else e['a'][0])
+                            return ('extent', r) if r is not None and r[0] == 'param' else None
+                    if e['k'] == 'mem' and e['n'] in ('nrows', 'n', 'rows'):
+                        r = an.root_of_expr(f, e['b']) if e.get('b') is not None else None
+                        return ('extent', r) if r is not None and r[0] == 'param' else None
+                    if e['k'] == 'ref' and f.decl(e['d']).get('k') in ('local',):
+                        inits = [v['init'] for n in f.nodes.values() if n['k'] == 'decl' for v in n['v'] if v['d'] == e['d'] and v.get('init') is not None]
+                        if len(inits) == 1:
+                            return origin(inits[0], depth + 1)
+                    return ('other', show(e))
+                o = origin(bound)
+                k += 1
+                key = '%s|%s|loop#%d' % (f.rel(), f.cls, k)
+                ok = o is not None and o[0] == 'extent'
+                ck.ob('full-extent', key, f.where(L), ok, '' if ok else 'in %s: the loop at %s writes `%s` element by element but is bounded by `%s` (%s), not by the row count of the matrix or the size of a vector argument' % (
+                    f.full[:80], f.where(L), show(writes[0]['x']), show(bound), o[1] if o else '?'))
+            if k:
+                done.add((f.file, f.line))
+
+
 def main(tier):
     ck = Check('C07', tier, 'C07 (clause): a zero output coefficient makes every backend primitive overwrite its output without reading it.')
     T = os.path.join(ir.VERIF, 'tus')
@@ -244,6 +311,11 @@ def main(tier):
             done.add(f.full)
             analyse(ck, f, prim, 'no-read-under-zero')
     conj_rule(ck, units)
+    rule_extent(ck, units)
+    import c13
+    c13.rule_view(ck, units)   # scalar vectors viewed as block vectors keep their own precision (shared with C13)
+    import c10
+    c10.rule_D(ck, units)      # per-thread partial sums of inner_product are initialised for every slot (shared with C10)
     finalize_keys(ck)
     ck.assumptions += ['math::is_zero(b) is true exactly for the additive zero of the coefficient type',
                        'the algebraic formula itself, Kahan summation accuracy and the conjugation convention are not decided']
